@@ -331,6 +331,29 @@ impl Check for C08 {
                     let l = numlit::hostile(&mut r);
                     check_raw(ctx, &l);
                 }
+                // number shapes: the `.`/`e` on every lane of the block-wise skipper, malformed tails
+                for _ in 0..c.p(1) / 2 {
+                    let l = numlit::number_shape(r.range(1, 140), r.below(64) as usize, r.chance(1, 4), r.range(0, 40));
+                    check_raw(ctx, &l);
+                    // followed by at least 32 bytes of input inside a raw-number DOM
+                    let doc = format!("[{},\"ppppppppppppppppppppppppppppppppppppppppppp\"]", l);
+                    let valid = is_json_number(l.as_bytes());
+                    ctx.ops(1);
+                    match sonic_rs::Deserializer::from_str(&doc).use_rawnumber().deserialize::<Value>() {
+                        Ok(v) => {
+                            if !valid {
+                                ctx.fail("dom-rawnumber-accepts-invalid", format!("{:?} accepted in raw-number mode", crate::core::truncate(&doc, 120)));
+                            } else if v[0].as_raw_number().map(|x| x.as_str().to_string()).as_deref() != Some(l.as_str()) {
+                                ctx.fail("dom-rawnumber-not-verbatim", format!("{:?}", crate::core::truncate(&doc, 120)));
+                            }
+                        }
+                        Err(e) => {
+                            if valid && !matches!(classify(l.as_bytes()), RefNum::Inf) {
+                                ctx.fail("dom-rawnumber-rejects", format!("{:?}: {}", crate::core::truncate(&doc, 120), e));
+                            }
+                        }
+                    }
+                }
                 for l in ["0", "-0", "-0.0", "1e5", "1E+5", "0.10", "1.0", "123456789012345678901234567890", "-1e-400", "1e400", "01", "1.", "", "abc", "-", "+1"] {
                     check_raw(ctx, l);
                 }
